@@ -6,13 +6,15 @@ Routes
   power of 4 (check=False: the model needs no orthogonality, every float64 / float32 operation is exact)
   and on the signed permutation matrices of the Hurwitz quaternions (check=True); the raise / no-raise
   decision and the message of the check=True predicates on batches of perturbed matrices (away from
-  the tolerance boundary); the batch-shape test of the rank test of mat2Sim3 / mat2RxSO3.
+  the tolerance boundary); the scaled groups on an empty batch.
 * enclosure (R, interval): mat2SO3 / mat2SE3 / mat2RxSO3 / mat2Sim3 / from_matrix on the float matrix the
   implementation was given, through the evaluation lemmas of Proofs/Convert.v (the case file proves the
   ten tolerance tests, the mask conditions, the sign of the radicand and then bounds the closed form of
   the selected branch); euler2SO3 and LieTensor.euler with the generic branch-deciding tactic.
   The inputs are universally quantified reals pinned by  v <= x <= v  (keeps the terms small).
-* a few raise codes of the scaled variants (rank test, negative determinant) over R.
+* raise codes of the scaled variants (rank test, negative determinant, shear) over R through proved lemmas;
+  valid Sim3 / RxSO3 batches of every shape incl. lshape (2,3), (2,3,4), (0,), (2,0) as directed regression
+  cases of the rank-test defects repaired in /repo 988caf7.
 * the property's own statement evaluated on the implementation (independent oracle: Fractions /
   mpmath), on the enclosure inputs and on a larger sweep: this is the search of section 3.5.
 """
@@ -366,11 +368,11 @@ def eval_script(c, k):
     """tactic establishing  <model expression> = ?r  for a mat2X case through the evaluation lemmas"""
     g, check, rows, cols = c['g'], c['check'], c['rows'], c['cols']
     data = '[%s]' % '; '.join(c['names'])
-    args = '%s %s %s [1%%nat] %d%%nat %d%%nat %s' % (rlit(F(ATOL)), rlit(F(ATOL)), bl(check), rows, cols, data)
+    args = '%s %s %s %d%%nat %d%%nat %s' % (rlit(F(ATOL)), rlit(F(ATOL)), bl(check), rows, cols, data)
     pre = 'rewrite from_matrix_is_mat2X by (repeat constructor); ' if c['via'] == 'from_matrix' else ''
     if g in ('SO3', 'SE3'):
         return pre + 'apply (eval_item_%s %s %d%%nat); [ reflexivity | idtac | side P ]; (intros Hc; first [ discriminate Hc | side P ])' % (g, args, k)
-    return pre + ('apply (eval_item_%s %s %d%%nat) with (s := s); [ reflexivity | side P | reflexivity | reflexivity | clearbody s; side P '
+    return pre + ('apply (eval_item_%s %s %d%%nat) with (s := s); [ reflexivity | side P | reflexivity | clearbody s; side P '
                   '| idtac | clearbody s; side P ]; (intros Hc; first [ discriminate Hc | clearbody s; side P ])' % (g, args, k))
 
 
@@ -507,7 +509,7 @@ def enclosure_block(ctx, pp, torch):
         i = len(meta)
         names = ['x%d' % j for j in range(len(inputs))]
         fn = 'from_matrix_l' if via == 'from_matrix' else 'mat2X_l'
-        expr = 'outcome_item (%s %s %s %d%%nat %s [1%%nat] %d%%nat %d%%nat [[%s]]) 0%%nat' % (
+        expr = 'outcome_item (%s %s %s %d%%nat %s %d%%nat %d%%nat [[%s]]) 0%%nat' % (
             fn, rlit(F(ATOL)), rlit(F(ATOL)), GID[g], bl(check), rows, cols, '; '.join(names))
         comps = []
         qi = {'SO3': 0, 'SE3': 3, 'RxSO3': 0, 'Sim3': 3}[g]
@@ -722,7 +724,7 @@ def embed(rng, R, lay):
 
 def exact_block(ctx, pp, torch):
     rng = ctx.rng
-    conv, cmeta = [], []
+    conv, cmeta, conv_extra = [], [], []
 
     def add_conv(g, via, lay, check, dname, items):
         Mt = torch.tensor(items, dtype=dt(torch, dname))
@@ -809,19 +811,26 @@ def exact_block(ctx, pp, torch):
                               dict(kind='check', g=g, via=via, dtype=dname, items=items, expect_raise=exp_raise))
     files += [('chk_%03d' % k, LIE_HEADER.replace('Model.LieGroup.', 'Model.LieGroup Model.Convert.') + 'Eval vm_compute in check_bad %s.\n' % coq_list(sh))
               for k, sh in enumerate(shard(chk, 200))]
-    # batch shapes of the rank test: broadcastable (B ++ [1]) B
+    # the scaled groups on an empty batch (regression of the empty-batch defect repaired in 988caf7): the model
+    # returns the empty batch; no cube root is evaluated
+    for g in ('RxSO3', 'Sim3'):
+        for via in ('direct', 'from_matrix'):
+            for check in (True, False):
+                r = call(pp, torch, via, g, torch.zeros((0, 4, 4), dtype=torch.float64), check)
+                i = len(cmeta)
+                exp = (0, []) if r[0] == 'value' and r[1].numel() == 0 else ((r[1] if r[0] == 'raise' else 78), [])
+                cmeta.append(dict(kind='shape', g=g, via=via, shape=[0], impl=exp))
+                conv_extra.append('(%d%%nat, (%d%%nat, %s, 4%%nat, 4%%nat), (%s, %s), [], (%d%%nat, []))' % (
+                    i, GID[g], bl(check), qlit(F(ATOL)), qlit(F(ATOL)), exp[0] if exp[0] >= 0 else 77))
+                ctx.case(('exact-empty', g, via, check), nontrivial=False, branch='exact:empty-batch:%s' % g)
+    files.append(('conv_empty', LIE_HEADER.replace('Model.LieGroup.', 'Model.LieGroup Model.Convert.') + 'Eval vm_compute in conv_bad %s.\n' % coq_list(conv_extra)))
     shapes = [(), (1,), (3,), (2, 3), (3, 3), (2, 1), (1, 2), (0,), (2, 0), (2, 3, 4), (2, 2, 2), (1, 1), (4, 1, 1), (3, 1, 3), (5,), (2, 2)]
-    files.append(('shape_000', LIE_HEADER.replace('Model.LieGroup.', 'Model.LieGroup Model.Convert.') +
-                  'Eval vm_compute in map (fun B => broadcastable (B ++ [1%%nat]) B) %s.\n' % coq_list(natl(s) for s in shapes)))
+    shape_block(ctx, pp, torch, shapes)
     res = run_files('C11', files)
     for name, (rc, out) in sorted(res.items()):
         ev = parse_evals(out)
         if rc != 0 or len(ev) != 1:
             ctx.obligation_broken('correspondence-file:' + name, out[-1500:])
-            continue
-        if name.startswith('shape'):
-            flags = [w.strip() == 'true' for w in ev[0].strip('[]').split(';')]
-            shape_block(ctx, pp, torch, shapes, flags)
             continue
         bad = parse_nat_list(ev[0])
         metas = cmeta if name.startswith('conv') else kmeta
@@ -877,28 +886,30 @@ def gen_check_item(rng, perms, rnd, margin):
     return None, None
 
 
-def shape_block(ctx, pp, torch, shapes, flags):
-    """valid Sim3 / RxSO3 batches of every shape: the model says RuntimeError iff B+(1,) and B do not
-    broadcast, ValueError('not full rank') for an empty batch, a value otherwise"""
-    import functools
+def shape_block(ctx, pp, torch, shapes):
+    """valid Sim3 / RxSO3 batches of every shape (directed regression of the rank-test defects repaired in
+    /repo 988caf7: lshape (2,3), (2,3,4), (0,), (2,0) ...): the model does not look at the batch shape and
+    returns (C11_mat2Sim3_roundtrip, C11_empty_batch_returns), so must the implementation"""
     for g in ('Sim3', 'RxSO3'):
-        for sh, bc in zip(shapes, flags):
-            n = functools.reduce(lambda a, b: a * b, sh, 1)
-            model = 100 if not bc else (4 if n == 0 else 0)
-            X = getattr(pp, 'randn_' + g)(*sh, dtype=torch.float64) if sh else getattr(pp, 'randn_' + g)(dtype=torch.float64)
+        for sh in shapes:
+            n = 1
+            for v in sh:
+                n *= v
             for via in ('direct', 'from_matrix'):
+                rec = dict(kind='shape', g=g, via=via, shape=list(sh))
+                X = getattr(pp, 'randn_' + g)(*sh, dtype=torch.float64) if sh else getattr(pp, 'randn_' + g)(dtype=torch.float64)
                 r = call(pp, torch, via, g, X.matrix(), True)
                 got = 0 if r[0] == 'value' else r[1]
                 ctx.case(('shape', g, sh, via), nontrivial=n > 1, branch='shape:%s:%s' % (g, {0: 'value', 4: 'not-full-rank', 100: 'RuntimeError'}.get(got, got)))
-                rec = dict(kind='shape', g=g, via=via, shape=list(sh))
-                if got != model:
-                    ctx.mismatches.append(dict(family='shape:' + g, case=rec, detail='model code %s, implementation %s' % (model, r[1:])))
+                mm = None
+                if got != 0:
+                    mm = dict(family='shape:' + g, case=rec, detail='model returns, implementation %s' % (r[1:],))
+                    ctx.mismatches.append(mm)
                 why = replay(ctx, rec)
                 if why:
+                    if mm:
+                        mm['explained'] = True
                     ctx.violation(key_for(rec), why, rec)
-                    for mm in ctx.mismatches:
-                        if mm['case'] is rec:
-                            mm['explained'] = True
 
 
 # ------------------------------------------------------------------------------ raise codes of the scaled variants over R
@@ -916,7 +927,7 @@ def code_block(ctx, pp, torch):
         got = 0 if r[0] == 'value' else r[1]
         i = len(meta)
         data = rlist([v for row in M for v in row])
-        args = '%s %s %s [1%%nat] 3%%nat 3%%nat %s %d%%nat' % (tolr, tolr, bl(check), data, GID[g])
+        args = '%s %s %s 3%%nat 3%%nat %s %d%%nat' % (tolr, tolr, bl(check), data, GID[g])
         hg = ('left' if g == 'RxSO3' else 'right') + '; reflexivity'
         A = fr_mat(M)
         pose = ''
@@ -925,11 +936,11 @@ def code_block(ctx, pp, torch):
             pose = ('pose (s := exp (ln (mdet3 (in_rot (parse_in 3%%nat 3%%nat %s))) / 3)); '
                     'assert (Hsb : %s <= s <= %s) by (unfold s; model_cbv; interval with (i_prec %d)); ' % (data, rlit(lo), rlit(hi), PREC))
         if cls == 'tiny':
-            script = pose + 'apply (code_rank_small %s) with (s := s); [ reflexivity | reflexivity | %s | side P | reflexivity | clearbody s; side P ]' % (args, hg)
+            script = pose + 'apply (code_rank_small %s) with (s := s); [ reflexivity | %s | side P | reflexivity | clearbody s; side P ]' % (args, hg)
         elif cls == 'singular':
-            script = 'apply (code_rank_singular %s); [ reflexivity | reflexivity | %s | model_cbv; lra | lra ]' % (args, hg)
+            script = 'apply (code_rank_singular %s); [ reflexivity | %s | model_cbv; lra | lra ]' % (args, hg)
         elif cls == 'reflect':
-            script = 'apply (code_negdet %s); [ reflexivity | reflexivity | %s | side P ]' % (args, hg)
+            script = 'apply (code_negdet %s); [ reflexivity | %s | side P ]' % (args, hg)
         else:
             # an entry of (M/s)(M/s)^T beyond the tolerance, found in exact arithmetic
             sf = Fraction(lo)
@@ -943,10 +954,10 @@ def code_block(ctx, pp, torch):
                         ij = (a_, b_)
             if ij is None:
                 return
-            script = pose + ('apply (code_not_orth %s) with (s := s) (i := %d%%nat) (j := %d%%nat); [ reflexivity | reflexivity | %s | side P | reflexivity '
+            script = pose + ('apply (code_not_orth %s) with (s := s) (i := %d%%nat) (j := %d%%nat); [ reflexivity | %s | side P | reflexivity '
                              '| clearbody s; side P | reflexivity | repeat constructor | repeat constructor | clearbody s; side P ]' % (args, ij[0], ij[1], hg))
         script = script.replace('side P', 'side %d%%positive' % PREC)
-        goals.append('Goal outcome_code (mat2X_l %s %s %d%%nat %s [1%%nat] 3%%nat 3%%nat [%s]) = %d%%nat.\nProof. first [ timeout 200 (solve [ %s ]); idtac "OK" "%d" | idtac "BAD" "%d" ]. Abort.\n'
+        goals.append('Goal outcome_code (mat2X_l %s %s %d%%nat %s 3%%nat 3%%nat [%s]) = %d%%nat.\nProof. first [ timeout 200 (solve [ %s ]); idtac "OK" "%d" | idtac "BAD" "%d" ]. Abort.\n'
                      % (tolr, tolr, GID[g], bl(check), data, got if got >= 0 else 77, script, i, i))
         meta.append(dict(kind='code', g=g, check=check, M=M, impl=got, cls=cls))
         ctx.case(('code', g, check, str(M)), nontrivial=True, branch='code:%s:%s:check=%s:%s' % (g, cls, check, got))
@@ -989,7 +1000,7 @@ def code_block(ctx, pp, torch):
 def sweep_block(ctx, pp, torch):
     rng = ctx.rng
     n = ctx.scale(4000, 60000)
-    shapes = [(), (), (1,), (3,), (2, 2), (1, 3), (3, 1), (4,)]
+    shapes = [(), (), (1,), (3,), (2, 2), (1, 3), (3, 1), (4,), (2, 3), (3, 2, 2), (0,), (2, 0)]
     for j in range(n):
         g = GROUPS[j % 4]
         kind = QKINDS[(j // 4) % len(QKINDS)] if j < 8 * len(QKINDS) else rng.choice(QKINDS)
@@ -1052,8 +1063,10 @@ def key_for(m):
         return (KEY_SHAPE if not shape_broadcasts(m['shape']) else KEY_EMPTY) % FNAME[m['g']]
     if k == 'mat2x':
         sh = m.get('shape') or []
-        if m['g'] in ('Sim3', 'RxSO3') and len(sh) >= 2 and not shape_broadcasts(sh):
+        if m['g'] in ('Sim3', 'RxSO3') and sh and not shape_broadcasts(sh):
             return KEY_SHAPE % FNAME[m['g']]
+        if m['g'] in ('Sim3', 'RxSO3') and 0 in sh:
+            return KEY_EMPTY % FNAME[m['g']]
         return 'roundtrip:%s:%s:%s' % (FNAME[m['g']], m['dtype'], m.get('qkind', 'x'))
     if k in ('exact',):
         return 'exact:%s:%s:%s' % (FNAME[m['g']], m['dtype'], m['lay'])
@@ -1139,20 +1152,3 @@ def run(ctx):
     enclosure_block(ctx, pp, torch)
     code_block(ctx, pp, torch)
     sweep_block(ctx, pp, torch)
-    # listed findings are replayed on their recorded witnesses on every run
-    for key in ctx.known:
-        if key in ctx.known_hit:
-            continue
-        w = KNOWN_WITNESS.get(key)
-        if w:
-            why = replay(ctx, w)
-            if why:
-                ctx.known_hit[key] = why
-
-
-KNOWN_WITNESS = {
-    KEY_SHAPE % 'mat2Sim3': dict(kind='shape', g='Sim3', via='direct', shape=[2, 3]),
-    KEY_SHAPE % 'mat2RxSO3': dict(kind='shape', g='RxSO3', via='direct', shape=[2, 3]),
-    KEY_EMPTY % 'mat2Sim3': dict(kind='shape', g='Sim3', via='direct', shape=[0]),
-    KEY_EMPTY % 'mat2RxSO3': dict(kind='shape', g='RxSO3', via='direct', shape=[0]),
-}
